@@ -190,6 +190,10 @@ def jobs(tier, seed):
                        'cfg': {'cir': 8, 'cbs': 4, 'pir': pir, 'pbs': pbs, 'n': n, 'sorts': sort}})
     js.append({'harness': 'trtb', 'weight': 5,
                'cfg': {'cir': 8, 'cbs': 4, 'pir': 16, 'pbs': 6, 'n': n, 'sorts': 'int', 'burst': [0] + [1] * (n - 1)}})
+    # bucket sizes of 0 are sizes like any other (nothing is ever saved up: every packet waits for its own tokens)
+    js.append({'harness': 'trtb', 'weight': 10, 'cfg': {'cir': 8, 'cbs': 4, 'pir': 16, 'pbs': 0, 'n': 3, 'sorts': 'int'}})
+    js.append({'harness': 'trtb', 'weight': 10, 'cfg': {'cir': 8, 'cbs': 0, 'pir': None, 'pbs': None, 'n': 3, 'sorts': 'int'}})
+    js.append({'harness': 'tb', 'weight': 10, 'cfg': {'rate': 8, 'bucket': 0, 'peak': None, 'n': 3, 'sorts': 'int'}})
     # two shapers in one environment
     js.append({'harness': 'tb', 'weight': 10, 'cfg': {'rate': 8, 'bucket': 4, 'peak': 64, 'n': 3, 'sorts': 'int', 'twin': True}})
     js.append({'harness': 'trtb', 'weight': 10, 'cfg': {'cir': 8, 'cbs': 4, 'pir': 16, 'pbs': 6, 'n': 3, 'sorts': 'int', 'twin': True}})
